@@ -15,3 +15,20 @@ Lemma leaf_sizes_small_increasing :
   (fix inc (l:list Z) := match l with a :: ((b :: _) as r) => (a <? b) && inc r | _ => true end) leaf_sizes_small = true
   /\ 14336000 <= last leaf_sizes_small 0.
 Proof. split; vm_compute; [reflexivity|discriminate]. Qed.
+
+(* for every entry count: the float32 sequence of the Go loop contains, after finitely many rounds, a size holding all entries;
+   all sizes up to there are at least 4096 (Proofs/LeafGrowth.v) *)
+From Coq Require Import Lia NArith.
+From PM Require Import Proofs.LeafGrowth.
+Lemma last_in (l:list Z) d : l <> [] -> In (last l d) l.
+Proof. induction l as [|a [|b r] IH]; intro H; [congruence|left; reflexivity|right; apply IH; discriminate]. Qed.
+Lemma go_sizes_reach (n:N) : Z.of_N n <= 2^62 ->
+  exists k s, In s (go_sizes n k) /\ (n <= s)%N /\ Forall (fun s => (4096 <= s)%N) (go_sizes n k).
+Proof.
+  intro Hn. destruct (leaf_growth (Z.of_N n) ltac:(lia)) as (k & A & B).
+  exists (S k), (Z.to_N (last (leaf_seq (S k) (leaf_start (Z.of_N n))) 0)). unfold go_sizes. split; [|split].
+  - apply in_map. apply last_in. cbn [leaf_seq]. discriminate.
+  - lia.
+  - apply Forall_forall. intros s Hs. apply in_map_iff in Hs. destruct Hs as (z & <- & Hz).
+    rewrite Forall_forall in A. specialize (A z Hz). lia.
+Qed.
